@@ -142,6 +142,7 @@ class ExprGen:
 
     # --- shapes claripy special-cases
     simple = False
+    concrete_pct = 0  # extra share of variable-free constraints (true / false / const == const)
 
     def constraint(self, ref: EnumRef | None = None):
         r = self.r
@@ -187,8 +188,8 @@ class ExprGen:
             return ["bnot", self.cmp(1)]
         if k < 78:
             return ["band", self.cmp(0), self.cmp(0)]
-        if k < 80:
-            return r.choice([["true"], ["false"]]) if r.chance(50) else ["eq", self.const(w), self.const(w)]
+        if k < 80 + self.concrete_pct:
+            return r.choice([["true"], ["false"], ["false"]]) if r.chance(50) else ["eq", self.const(w), self.const(w)]
         return self.boolean(2)
 
     def query(self):
@@ -314,7 +315,7 @@ DEFAULT_WEIGHTS = {
     "merge": 0, "combine": 0, "split": 0, "unsat_core": 0, "pickle": 0, "pickle_expr": 0, "g_truth": 0, "new": 0,
     "add_replacement": 0, "split_recombine": 0, "merge3": 0,
     # multi-step shapes random walks rarely produce (DESIGN 9.6.1); cheap, so on everywhere with a small weight
-    "exhaust_batch": 2, "span_branch_add": 0, "late_unsat": 2, "bridge_split": 0, "split_cross": 0, "branch_simplify_add": 0, "pairwise_derive": 0,
+    "exhaust_batch": 2, "span_branch_add": 0, "late_unsat": 2, "bridge_split": 0, "split_cross": 0, "branch_simplify_add": 0, "pairwise_derive": 0, "drop_reuse": 1, "double_branch": 1, "remove_replacement": 0,
 }
 
 QUERY_KINDS = ("sat", "probe", "eval", "batch_eval", "min", "max", "solution", "is_true", "is_false")
@@ -347,6 +348,7 @@ class HistoryGen:
             self.eg_approx = ExprGen(r, gen_vars, profile.get("approx_ops_allowed", profile.get("ops_allowed")))
         if not self.domains:
             self.eg_approx.simple = bool(profile.get("approx_simple_constraints"))
+        self.eg.concrete_pct = profile.get("concrete_pct", 0)
         self.ref_kind = profile.get("ref", "enum")
         self.dry = Machine({"config": {"vars": self.varlist, "ref": self.ref_kind}, "ops": []}, None)
         self.ops = []
@@ -372,7 +374,7 @@ class HistoryGen:
     def emit(self, op):
         """append the op and apply its structural effect to the dry machine"""
         self.ops.append(op)
-        if op["op"] in ("new", "branch", "drop", "pickle", "add", "merge", "combine", "add_replacement"):
+        if op["op"] in ("new", "branch", "drop", "pickle", "add", "merge", "combine", "add_replacement", "remove_replacement"):
             from .machine import _Skip
 
             try:
@@ -675,6 +677,17 @@ class HistoryGen:
         elif kind == "split_cross":
             self.macro_split_cross(hi, h)
             return
+        elif kind == "drop_reuse":
+            self.macro_drop_reuse(hi, h, live)
+            return
+        elif kind == "double_branch":
+            self.macro_double_branch(hi, h, live)
+            return
+        elif kind == "remove_replacement":
+            rr = [c for c in h.lineage if isinstance(c, list) and c and c[0] == "eq" and c[-1] == "by-add-replacement"]
+            if h.cls != "SolverReplacement" or not rr:
+                return
+            op = {"op": "remove_replacement", "h": hi, "var": r.choice(rr)[1][1]}
         elif kind == "pairwise_derive":
             self.macro_pairwise_derive(hi, h, live)
             return
@@ -1103,6 +1116,43 @@ class HistoryGen:
             self.unknown_handles = min(6, self.unknown_handles + 2)
             self.emit({"op": "unsat_core", "h": {"h_var": y, "h": a_i}})
 
+    def macro_drop_reuse(self, hi, h, live):
+        """a second solver is used and then DROPPED (its memory is free for the next object), then a branch of the first
+        one is queried right away: whatever identifies "the last user" of something shared must not be an address"""
+        r = self.r
+        if len(live) >= self.max_handles:
+            return
+        self.emit(self.query_op(r.choice(["eval", "sat", "max"]), hi, h))
+        self.emit({"op": "new", "cls": h.cls, "kw": dict(h.kw or {})})
+        bi = len([z for z in self.handles if z.alive]) - 1
+        nb = self.handles[-1]
+        self.emit({"op": "add", "h": bi, "cs": [self.gen_constraint(nb)]})
+        self.emit(self.query_op(r.choice(["eval", "sat", "min"]), bi, nb))
+        self.emit({"op": "drop", "h": bi})
+        if r.chance(50):
+            self.emit({"op": "gc"})
+        self.emit({"op": "branch", "h": hi})
+        ci = len([z for z in self.handles if z.alive]) - 1
+        for _ in range(r.range(1, 3)):
+            self.emit(self.query_op(r.choice(["eval", "probe", "max", "min", "solution"]), ci, self.handles[-1]))
+
+    def macro_double_branch(self, hi, h, live):
+        """solve, branch, add on the parent WITHOUT asking, branch again, then ask the first branch"""
+        r = self.r
+        if len(live) >= self.max_handles:
+            return
+        self.emit(self.query_op(r.choice(["eval", "sat", "max"]), hi, h))
+        self.emit({"op": "branch", "h": hi})
+        b1 = len([z for z in self.handles if z.alive]) - 1
+        b1h = self.handles[-1]
+        c = self.narrow_constraint(h, self.qexpr(h)) or self.gen_constraint(h)
+        self.emit({"op": "add", "h": hi, "cs": [c]})
+        self.emit({"op": "branch", "h": hi})
+        for _ in range(r.range(1, 3)):
+            self.emit(self.query_op(r.choice(["probe", "eval", "max", "min", "solution"]), b1, b1h))
+        if r.chance(50):
+            self.emit(self.query_op(r.choice(["probe", "eval"]), hi, h))
+
     def macro_merge3(self, hi, h, live):
         """C15: a three-way merge in which two participants share state (branches of one base) and the third has an
         unrelated history that constrains the same variables differently"""
@@ -1468,10 +1518,13 @@ PROFILES = {
     "C11": {
         "frontends": [("Solver", 6), ("SolverCacheless", 2), ("SolverStrings", 1)],
         "length": (3, 40),
+        "weights": {"drop_reuse": 3, "double_branch": 2},
+        "reuse_pct": 35,
     },
     "C12": {
         "frontends": [("SolverComposite", 1)],
         "var_shapes": COMPOSITE_SHAPES,
+        "concrete_pct": 4,
         "length": (3, 40),
         "weights": {"branch": 8, "simplify": 6, "split": 2, "combine": 2, "merge": 2, "span_branch_add": 4, "late_unsat": 4,
                     "branch_simplify_add": 4},
@@ -1485,7 +1538,7 @@ PROFILES = {
         "approx_first_always_exact": True,
         "dup_in_list_pct": 12,
         "echo_pct": 20,
-        "weights": {"pickle": 2, "downsize": 4, "branch": 6, "add_replacement": 3},
+        "weights": {"pickle": 2, "downsize": 4, "branch": 6, "add_replacement": 3, "remove_replacement": 2},
         "pickle_modes": ["replace"],
     },
     "C13approx": {
@@ -1540,7 +1593,7 @@ PROFILES = {
         "frontends": ALL_EXACT,
         "length": (5, 40),
         "weights": {"branch": 14, "downsize": 4, "simplify": 6, "pickle": 1, "span_branch_add": 4, "late_unsat": 3, "add_replacement": 2,
-                    "branch_simplify_add": 5},
+                    "branch_simplify_add": 5, "drop_reuse": 3, "double_branch": 4},
         "pickle_modes": ["replace"],
         "never_swarm_out": ("branch",),
         "sweep_pct": 70,
@@ -1551,6 +1604,7 @@ PROFILES = {
         "frontends": [("Solver", 4), ("SolverCacheless", 2), ("SolverComposite", 4), ("SolverHybrid", 2), ("SolverReplacement", 2),
                       ("SolverStrings", 1)],
         "var_shapes": FLAG_SHAPES,
+        "concrete_pct": 4,
         "length": (6, 36),
         "weights": {"branch": 14, "merge": 9, "combine": 8, "split": 6, "add": 24, "new": 4, "split_recombine": 4, "merge3": 4,
                     "bridge_split": 4, "split_cross": 3},
@@ -1561,6 +1615,7 @@ PROFILES = {
     "C16": {
         "frontends": [("Solver", 4), ("SolverComposite", 4), ("SolverHybrid", 2)],
         "kw_for": {"Solver": [{"track": True}], "SolverComposite": [{"track": True}], "SolverHybrid": [{"track": True}]},
+        "concrete_pct": 4,
         "length": (3, 30),
         "keep_sat_pct": 25,
         "weights": {"unsat_core": 18, "add": 30, "branch": 6, "simplify": 5, "eval": 6, "min": 3, "max": 3, "solution": 3,
